@@ -584,6 +584,11 @@ def check(case):
         labels.append("blocks>0" if blocks else "blocks=0")
     else:
         nt = True
+    if res.get("verdict") == "budget":
+        # the harness's own step budget ran out (one byte per several calls
+        # over tens of kilobytes): nothing can be said
+        from vlib.runner import inconclusive
+        return inconclusive("step-budget", labels=labels)
     if res.get("verdict"):
         return bad("spin-under-schedule:%s:%s" % (name, path), repr(case),
                    nt=nt, labels=labels)
